@@ -57,7 +57,6 @@ func runSeq(r *report.Run, i int, rng *report.Rand) {
 		return
 	}
 	defer sc.close()
-	kinds := map[string]bool{}
 	bad := false
 	for n, o := range ops {
 		if o.SleepMs > 0 {
@@ -73,7 +72,6 @@ func runSeq(r *report.Run, i int, rng *report.Rand) {
 			return
 		}
 		rm.apply(o, now)
-		kinds[o.Kind] = true
 		r.Count("seq.op."+o.class(), 1)
 		if err != nil {
 			r.Violation("c08.seq.op-error:"+o.class()+":"+errClass(err.Error()), fmt.Sprintf("%s failed: %v", o, err), witness(n, nil))
@@ -147,5 +145,6 @@ func TestCheck(t *testing.T) {
 	// (4) linearizability of concurrent histories (thorough)
 	if r.Thorough() || strings.HasPrefix(r.Only, "lin/") {
 		r.Group("lin", 400, func(i int, rng *report.Rand) { runLin(t, r, i, rng) })
+		lap("lin")
 	}
 }
